@@ -75,6 +75,28 @@ def lifecycle_grid(T=2, F=4, total=3, horizon=11):
                 if k == 0:
                     ops.append(f"respond req={req_id(0xC10, 1, 1, 0)} prov={P1} code=200 out=valid")
             out.append((f"grid:answered:pause@{i}:start@{j}:T{T2}F{F2}N3", ops))
+    # a one-shot context updated while its only batch is in flight (the update stores frequency and total whatever the
+    # repeat flag says): it must still end with that batch
+    one = (f"call tx={tx(0xC10)} idx=0 svc=svc provs={P1} cons={C1} cap=10 timeout=2 super=0 rep=0 freq=0 total=0 input=ok")
+    for fq, tot in ((2, 3), (3, -1), (2, 2)):
+        ops = prelude() + [one, "endblock dt=5000000000",
+                           f"updatectx ctx={cid} cons={C1} provs=- cap=- timeout=0 freq={fq} total={tot}"]
+        ops += ["endblock dt=5000000000"] * 8
+        out.append((f"grid:oneshot-updated:F{fq}N{tot}", ops))
+    # total reached while paused (paused in the last batch, which expires meanwhile); later start and pause again in one
+    # block: the entry queued by the start finds a paused context
+    for tot in (1, 2):
+        callt = (f"call tx={tx(0xC10)} idx=0 svc=svc provs={P1} cons={C1} cap=10 timeout=2 super=0 rep=1 freq=3 total={tot} input=ok")
+        last = 1 + 3 * (tot - 1)            # block in which the last batch starts
+        for j in (last + 3, last + 4):
+            ops = prelude() + [callt]
+            for k in range(last + 8):
+                if k == last + 1:
+                    ops.append(f"pause ctx={cid} cons={C1}")
+                if k == j:
+                    ops += [f"start ctx={cid} cons={C1}", f"pause ctx={cid} cons={C1}"]
+                ops.append("endblock dt=5000000000")
+            out.append((f"grid:total-reached-paused:N{tot}:start+pause@{j}", ops))
     for i in range(0, horizon):
         ops = prelude() + [call]
         for k in range(horizon + 2):
@@ -155,6 +177,16 @@ def module_grid():
             ops.append(f"disable svc=svc prov={P2} owner={O1}")
         ops += ["endblock dt=5000000000"] * 7
         out.append((f"grid:module:rethreshold{newthr}:{'one' if disable else 'two'}-eligible", ops))
+    # … and the batch in flight is judged by the threshold it was started with: one of two providers answers
+    for oldthr, newthr in ((2, 1), (1, 2)):
+        ops = prelude(two_providers=True)
+        ops.append(f"modcreate tx={tx(0xC0C)} idx=0 mod=oracle svc=svc provs={P1},{P2} cons={C1} cap=10 timeout=2 "
+                   f"super=0 rep=1 freq=3 total=2 input=ok state=running thr={oldthr}")
+        ops.append("endblock dt=5000000000")
+        ops.append(f"modupdate ctx={ctx_id(0xC0C)} cons={C1} provs=- thr={newthr} cap=- timeout=0 freq=0 total=0")
+        ops.append(f"respond req={req_id(0xC0C, 1, 1, 0)} prov={P1} code=200 out=valid")
+        ops += ["endblock dt=5000000000"] * 6
+        out.append((f"grid:module:rethreshold-inflight:{oldthr}to{newthr}:one-answer", ops))
     return out
 
 
@@ -297,6 +329,18 @@ def deposit_grid():
                             f"enable svc=svc prov={P1} owner={O1} dep={dep}"]
                 ops.append("endblock dt=5000000000")
                 out.append((f"grid:deposit:{how}:p{newp}:T{T}", ops))
+    # the minimum follows the BASE price, also while a time promotion halves what is charged: price 100, minimum 20000
+    t0 = 1000000000000
+    for dep in (10000, 15000, 19999, 20000):
+        promo = f"{t0}:{t0 + 50000000000}:500000000000000000"
+        ops = [genesis(), f"fund acct={O1} amt=10000000", f"fund acct={C1} amt=100000", f"define name=svc author={O1} schema=ok",
+               f"bind svc=svc prov={P1} owner={O1} dep={dep} price=100stake promT={promo} promV=- qos=1",
+               f"bind svc=svc prov={P2} owner={O1} dep=20000 price=100stake promT={promo} promV=- qos=1",
+               f"disable svc=svc prov={P2} owner={O1}",
+               f"update svc=svc prov={P2} owner={O1} dep=- price=150stake promT={promo} promV=- qos=0",
+               f"enable svc=svc prov={P2} owner={O1} dep={dep - 10000 if dep > 10000 else '-'}",
+               "endblock dt=5000000000"]
+        out.append((f"grid:deposit:time-promotion:D{dep}", ops))
     return out
 
 
